@@ -102,8 +102,8 @@ GEN_C12 = {
     "quick": [("unit", 40), ("ops", 8), ("expr", 10), ("ctrl", 12), ("loopidx", 10), ("struct", 16), ("hier", 10),
               ("seq", 8), ("misc", 12),
               ("nd", nd_idx([2], ["port", "sport", "wire", "pfield", "pfwire", "pftmp", "ifc", "ifcnest", "ifcport", "comp",
-                                  "compifc", "ffwire", "constarr"])
-               + nd_idx([3], ["port", "ifc"]) + nd_idx([1], ["ifcnest", "ifcport"])),
+                                  "ffwire", "constarr"])
+               + nd_idx([3], ["port"]) + nd_idx([1], ["ifcnest", "ifcport"])),
               ("lv", [0, 2, 4, 5, 6, 7])],
     # (one full round of the grid and a second round of its 2-D part; unit 320 -> 240, ops 300 -> 220,
     # expr 240 -> 200, ctrl 200 -> 170, struct 180 -> 160, hier 120 -> 110 make room for it)
@@ -118,6 +118,10 @@ def gen_specs(tier, seed_tag):
     for fam, n in (GEN_C12 if seed_tag == "C12" else GEN)[tier]:
         for i in (range(n) if isinstance(n, int) else n):
             name, src, meta = svgen.design(fam, i, seed_tag)
+            if seed_tag == "C12" and tier == "quick" and fam in ("unit", "ops", "expr"):
+                # quick tier: no second validation of the SystemVerilog text of the expression designs
+                # (the expression translator is shared, C03 validates that text on its own vectors)
+                meta = dict(meta, nocross=True)
             specs.append(("gen", name, src, "Top", meta))
     return specs
 
@@ -130,7 +134,7 @@ def corpora(tier, pid=PID):
         std = [n for n in QUICK_STDLIB if n in std_all]
         cfg = {"explicit_module_name": "RenamedTop"}
         return [("repo", [("repo", n) for n in names], 1, 8 if pid == PID else 6),
-                ("stdlib", [("stdlib", n) for n in std] + [("stdlib", n, cfg) for n in std[:4]], 1, 12),
+                ("stdlib", [("stdlib", n) for n in std] + [("stdlib", n, cfg) for n in std[:4]], 1, 12 if pid == PID else 10),
                 ("gen", gen_specs(tier, pid), 1, 6)]
     cfg = {"explicit_module_name": "RenamedTop", "explicit_file_name": "renamed_file.v"}
     return [("repo", [("repo", n) for n in names], 4, 20),
@@ -171,7 +175,9 @@ def run(res, tier, backend=BACKEND, pid=PID, cross=False, portmap=False, uns=Fal
              "text interpreted by TLC cycle by cycle against the recorded PyMTL run (every output port compared after the "
              "combinational evaluation and after the clock edge), plus one OneDriver evaluation per design; designs "
              "come from the repo test cases (own vectors + random vectors), stdlib RTL components and the generator "
-             "(operator x operand shape x width grid, control flow, structs, arrays, hierarchies, sequential logic); "
+             "(operator x operand shape x width grid, control flow, structs, arrays, hierarchies, sequential logic; the grid "
+             "array-like construct x {1, 2, 3} dimensions x {constant, loop-variable, signal index, connect} with a distinct "
+             "function per element, and the grid loop-variable use x range form); "
              "distinct = distinct (back end, design, run) tags; a run is non-trivial when it has at least one output "
              "comparison (runs of designs without outputs only exercise syntax / OneDriver)")
     res.note("disagreements_checked_is", "the number of output-leaf comparisons TLC made between the value the emitted text "
